@@ -94,13 +94,13 @@ Lemma crecv_loss items : forall inb nw wf,
   let p := processed nw wf items in
   let closed := ends_by_close nw wf items in
   count_act is_quit tr = 1%nat /\
-  last tr AErrCall = AQuit /\
+  (quit_before_disc tr = true /\ quiet_after_quit tr = true) /\
   count_act is_disc tr = 1%nat /\
   count_act is_err tr = ((if closed then 0 else 1) + length (filter is_serr p))%nat /\
   In (AEvDisconnected (inb + count_stanzas p)) tr.
 Proof.
   induction items as [|i items IH]; intros inb nw wf.
-  - cbn -[N.add]. repeat split; try reflexivity. right; left. f_equal. lia.
+  - cbn -[N.add]. repeat split; try reflexivity. right; right; left. f_equal. lia.
   - unfold ends_by_close.
     assert (Hstep : forall inb' nw' (pre : list action) (it : item),
               (forall a, In a pre -> is_quit a = false /\ is_disc a = false) ->
@@ -110,7 +110,7 @@ Proof.
               count_act is_err pre = (if is_serr it then 1 else 0)%nat ->
               let tr := crecv inb nw wf (i :: items) in
               let p := processed nw wf (i :: items) in
-              count_act is_quit tr = 1%nat /\ last tr AErrCall = AQuit /\ count_act is_disc tr = 1%nat /\
+              count_act is_quit tr = 1%nat /\ (quit_before_disc tr = true /\ quiet_after_quit tr = true) /\ count_act is_disc tr = 1%nat /\
               count_act is_err tr =
                 ((if match skipn (length p) (i :: items) with IClose :: _ => true | _ => false end then 0 else 1)
                  + length (filter is_serr p))%nat /\
@@ -126,8 +126,12 @@ Proof.
       unfold count_act in *. rewrite !filter_app, !app_length.
       repeat split.
       - rewrite Hcq. exact Hq.
-      - destruct (crecv inb' nw' wf items) as [|a0 l0] eqn:E; [cbn in Hq; discriminate|].
-        rewrite last_last_app; [exact Hl|discriminate].
+      - clear -Hpre Hl. destruct Hl as [Hl _]. induction pre as [|a pre IHp]; [exact Hl|].
+        destruct (Hpre a (or_introl eq_refl)) as [H1 H2].
+        cbn [app]. destruct a; try discriminate; cbn [quit_before_disc]; apply IHp; intros b Hb; apply Hpre; right; exact Hb.
+      - clear -Hpre Hl. destruct Hl as [_ Hl]. induction pre as [|a pre IHp]; [exact Hl|].
+        destruct (Hpre a (or_introl eq_refl)) as [H1 H2].
+        cbn [app]. destruct a; try discriminate; cbn [quiet_after_quit]; apply IHp; intros b Hb; apply Hpre; right; exact Hb.
       - rewrite Hcd. exact Hd.
       - cbn [length skipn filter]. rewrite He, Herr. destruct (is_serr it); cbn [length]; lia.
       - apply in_or_app. right. rewrite <- Hcnt. exact Hin. }
@@ -138,7 +142,7 @@ Proof.
       * unfold count_stanzas. cbn [filter is_stanza length]. lia.
     + (* r *)
       destruct (match wf with Some k => Nat.eqb k (S nw) | None => false end) eqn:Ew.
-      * cbn [crecv processed]. rewrite Ew. cbn -[N.add]. repeat split; try reflexivity. right; right; left. f_equal. lia.
+      * cbn [crecv processed]. rewrite Ew. cbn -[N.add]. repeat split; try reflexivity. right; right; right; left. f_equal. lia.
       * apply (Hstep inb (S nw) [AWrite inb; ARouteAsync ISmR] ISmR); try reflexivity.
         -- intros a [<-|[<-|[]]]; split; reflexivity.
         -- cbn [processed]. rewrite Ew. reflexivity.
@@ -153,9 +157,9 @@ Proof.
       apply (Hstep inb nw [ARouteSync (IStreamError tag); AEvStreamError; AErrCall; ADisconnectCall; ARouteAsync (IStreamError tag)] (IStreamError tag)); try reflexivity.
       intros a [<-|[<-|[<-|[<-|[<-|[]]]]]]; split; reflexivity.
     + (* close *)
-      cbn -[N.add]. repeat split; try reflexivity. right; left. f_equal. lia.
+      cbn -[N.add]. repeat split; try reflexivity. right; right; left. f_equal. lia.
     + (* bad *)
-      cbn -[N.add]. repeat split; try reflexivity. right; left. f_equal. lia.
+      cbn -[N.add]. repeat split; try reflexivity. right; right; left. f_equal. lia.
 Qed.
 
 (* ---- component ---- *)
